@@ -30,6 +30,15 @@ def find_size_ctl_loads(body):
 def sign_fact(body, pt, sym_arg):
     """sign of parameter symbol at point pt from a dominating `match x.cmp(&0)`: returns -1, 0, +1 or None"""
     ev = evaluator(body)
+    # by a dominating comparison (`if n < 0`, `else if n > 0`, ...)
+    from .affine import le_at
+    x = Aff.sym(sym_arg)
+    if le_at(body, pt, x, -1) is not None:
+        return -1
+    if le_at(body, pt, x.scale(-1), -1) is not None:
+        return 1
+    if le_at(body, pt, x, 0) is not None and le_at(body, pt, x.scale(-1), 0) is not None:
+        return 0
     for c in body.calls:
         if not (c.callee and c.callee.get("trait") == "std::cmp::Ord" and c.name == "cmp"):
             continue
@@ -137,7 +146,7 @@ def rule_k2(ctx, facts):
                 continue
             f = ev.operand(c.args[0])
             # min(MAX, npot)
-            mins = [m for m in b.calls if callee_str(m).endswith("cmp::min") and any(op_root(a) is not None and ("call", c.b) in (ev.local(op_root(a)) or Aff()).symbols() for a in m.args)]
+            mins = [m for m in b.calls if callee_str(m).endswith(("cmp::min", "Ord::min")) and any(op_root(a) is not None and ("call", c.b) in (ev.local(op_root(a)) or Aff()).symbols() for a in m.args)]
             min_const = None
             for m in mins:
                 for a in m.args:
@@ -475,6 +484,27 @@ def rule_k6(ctx, facts):
                      "no Table::new reachable" if not hit else "reaches %s via %s" % (hit[0], " -> ".join(x[0] for x in cg.chain(seen, hit[0]))))
 
 
+def rule_k9(ctx, facts):
+    tb = facts.body("HashMap::treeify_bin")
+    ac = facts.body("HashMap::add_count")
+    for b in facts.bodies:
+        for c in b.calls:
+            if c.resolved != tb.id or b.is_cleanup(c.b):
+                continue
+            ev = evaluator(b)
+            plus = []
+            for x in b.calls:
+                if x.resolved == ac.id and not b.is_cleanup(x.b):
+                    d = ev.operand(x.args[1])
+                    if d is not TOP and d.is_const() and d.c >= 1:
+                        plus.append(x)
+            ok = bool(plus)
+            ctx.inst("K9", b, "treeify_bin caller", c.span, ok,
+                     "called by an operation that inserts (add_count(+%s) at %s)" % (ev.operand(plus[0].args[1]).c, plus[0].span) if ok else
+                     "%s calls treeify_bin -- which doubles a table shorter than MIN_TREEIFY_CAPACITY -- but never adds an entry to the count: an update or a "
+                     "removal can make the table grow" % strip_generics(b.id))
+
+
 def run(ctx, facts):
     ctx.rule("K1", "the local compared with size_ctl equals the value the count RMW left in memory (affine forms, abs resolved by sign branch)",
              floor=2, floor_note="add_count Greater and Less branches")
@@ -487,6 +517,9 @@ def run(ctx, facts):
     ctx.rule("K4", "cap guard before initiating; table pointer only replaced by fresh/doubled tables", floor=5)
     ctx.rule("K5", "constants and comparison operators of the contract", floor=6)
     ctx.rule("K6", "capacity 0 allocates no table", floor=3)
+    ctx.rule("K9", "treeify_bin (which grows a table shorter than 64 instead of converting the bin) is called only by an inserting "
+                   "operation -- one that adds 1 to the count -- and never by one that can only update or remove", floor=1)
+    rule_k9(ctx, facts)
     rule_k1(ctx, facts)
     rule_k2(ctx, facts)
     rule_k3_k4(ctx, facts)
